@@ -15,7 +15,7 @@ KINDS = ["k0", "k1", "k2"]
 BASE_WEIGHTS = {
     "add": 30, "move": 12, "remove": 10, "remove_children": 2, "clear": 1, "del": 3,
     "sort": 4, "set_data": 8, "meta": 3, "filter": 3, "copy": 3, "copy_to": 3,
-    "restart": 2,
+    "restart": 2, "iter": 1, "visit": 1, "read": 1,
 }
 
 PROFILES = {
@@ -26,7 +26,8 @@ PROFILES = {
     "C04": {"meta": 2, "sort": 2},
     "C07": {"add": 1.5, "copy": 4, "copy_to": 5},
     "C08": {"filter": 8, "copy": 6},
-    "C13": {},
+    "C13": {"read": 6, "visit": 3, "sort": 2, "filter": 2, "restart": 2},
+    "C06": {"iter": 25, "visit": 30},
     "C05": {"restart": 8, "set_data": 1.5},
     "C12": {"restart": 8, "set_data": 1.5},
     "C14": {"restart": 8, "set_data": 1.5},
@@ -580,16 +581,88 @@ def gen_restart(rng, cfg, w: World, opid, invalid, steer):
     return op
 
 
+def gen_iter(rng, cfg, w: World, opid, invalid, steer):
+    si = pick_slot(rng, w)
+    op = {"id": opid, "k": "iter"}
+    if rng.random() < 0.4:
+        op["start"] = f"T{si}"
+        op["method"] = rng.choice(["pre", "post", "level", "level_rtl", "zigzag", "zigzag_rtl",
+                                   "random", "unordered"])
+        if op["method"] == "random":
+            op["prng"] = rng.randrange(1, 1000)
+        if op["method"] == "pre" and rng.random() < 0.3:
+            op["default_iter"] = True
+    else:
+        nm = pick_node(rng, w, si)
+        if nm is None:
+            op["start"] = f"T{si}"
+        else:
+            op["start"] = nm.uid
+            if rng.random() < 0.6:
+                op["add_self"] = rng.random() < 0.6
+        op["method"] = rng.choice(["pre", "post", "level", "level_rtl", "zigzag", "zigzag_rtl"])
+    return op
+
+
+def gen_visit(rng, cfg, w: World, opid, invalid, steer):
+    from .ops_read import SIGNALS
+
+    si = pick_slot(rng, w)
+    op = {"id": opid, "k": "visit"}
+    start = w.slots[si].model.root
+    if rng.random() < 0.6:
+        nm = pick_node(rng, w, si)
+        if nm is not None:
+            start = nm
+    op["start"] = ref_of(si, start)
+    if not start.is_root() and rng.random() < 0.6:
+        op["add_self"] = rng.random() < 0.6
+    op["method"] = rng.choice(["pre", "pre", "post", "level", "level"])
+    nodes = list(start.iter_pre(add_self=bool(op.get("add_self"))))
+    sigs = {}
+    if nodes and rng.random() < 0.8:
+        n_sig = rng.choice([1, 1, 2, 3])
+        skip_ok = op["method"] != "post"
+        for n in rng.sample(nodes, min(n_sig, len(nodes))):
+            names = [s for s in SIGNALS if skip_ok or not s.startswith("SKIP")]
+            if rng.random() < 0.5:
+                names = [s for s in names if s.startswith("SKIP")] or names
+            sigs[n.uid] = [rng.choice(names)]
+    op["signals"] = sigs
+    if rng.random() < 0.3:
+        op["memo"] = True
+    op["value"] = rng.choice([7, "v", 0])
+    return op
+
+
+def gen_read(rng, cfg, w: World, opid, invalid, steer):
+    si = pick_slot(rng, w)
+    what = rng.choice(["save_stream", "to_dict_list", "to_dotfile", "find_match", "format",
+                       "find_data"])
+    op = {"id": opid, "k": "read", "slot": si, "what": what}
+    if what == "find_match":
+        op["label"] = rng.choice(cfg["labels"])
+    if what == "find_data":
+        op["src"] = pick_data_src(rng, cfg, w, si)
+    return op
+
+
 GENERATORS = {
     "add": gen_add, "move": gen_move, "remove": gen_remove,
     "remove_children": gen_remove_children, "clear": gen_clear, "del": gen_del,
     "sort": gen_sort, "set_data": gen_set_data, "meta": gen_meta, "filter": gen_filter,
     "copy": gen_copy, "copy_to": gen_copy_to, "restart": gen_restart,
+    "iter": gen_iter, "visit": gen_visit, "read": gen_read,
 }
 
 FAULT_CBS = {
     "add": ["hook"], "set_data": ["hook"], "del": ["hook"], "sort": ["key"],
-    "filter": ["pred"], "copy": ["pred"],
+    "filter": ["pred"], "copy": ["pred"], "visit": ["visitor"], "restart": ["mapper"],
+}
+
+READ_FAULT_CBS = {
+    "save_stream": ["mapper", "io"], "to_dict_list": ["mapper"], "to_dotfile": ["mapper", "io"],
+    "find_match": ["match"], "format": ["repr"], "find_data": ["hook"],
 }
 
 
@@ -612,6 +685,8 @@ def gen_op(rng, frng, cfg, w: World, opid: int):
     # callback fault: drawn from its own stream so removing ops never shifts it
     if cfg["p_fault"] and frng.random() < cfg["p_fault"]:
         cbs = FAULT_CBS.get(op["k"], [])
+        if op["k"] == "read":
+            cbs = READ_FAULT_CBS.get(op["what"], [])
         if op["k"] == "sort" and "key" not in op:
             cbs = []
         if cbs:
